@@ -503,3 +503,149 @@ Proof.
     destruct (chr_tail_ok (callf cprog fuel (S d)) fuel m p cs sz c R ltac:(lia)) as [m2 [E2 [R2 [S2 _]]]].
     rewrite E2. eexists. split; [reflexivity|]. split; assumption.
 Qed.
+
+(* a store into a block other than the struct and its data block keeps the buffer *)
+Lemma rep_upd_other (m : mem) p cs sz bb blk' : sbuf_rep m p cs sz -> bb <> p -> sbuf_datab m p <> Some bb -> (bb < length m)%nat ->
+  sbuf_rep (upd m bb blk') p cs sz /\ sbuf_datab (upd m bb blk') p = sbuf_datab m p.
+Proof.
+  intros R Hne Hd Hl. split; [|apply datab_upd_other; assumption].
+  destruct R as [[-> [-> Hp]]|[b [rest [Hb [Hp [Hdb R]]]]]].
+  - left. split; [reflexivity|]. split; [reflexivity|]. rewrite mem_upd_other by lia. exact Hp.
+  - assert (b <> bb) by (intros ->; apply Hd; eapply datab_of; exact Hp).
+    right. exists b, rest. split; [exact Hb|]. rewrite !mem_upd_other by lia. auto.
+Qed.
+(* appending a block (another malloc) keeps the buffer *)
+Lemma rep_app (m : mem) p cs sz blk : sbuf_rep m p cs sz ->
+  sbuf_rep (m ++ [blk]) p cs sz /\ sbuf_datab (m ++ [blk]) p = sbuf_datab m p.
+Proof.
+  intro R. pose proof (rep_p_lt _ _ _ _ R) as Hpl.
+  split; [|unfold sbuf_datab; rewrite nth_error_app_old by exact Hpl; reflexivity].
+  destruct R as [[-> [-> Hp]]|[b [rest [Hb [Hp [Hdb R]]]]]].
+  - left. split; [reflexivity|]. split; [reflexivity|]. rewrite nth_error_app_old by exact Hpl. exact Hp.
+  - right. exists b, rest. split; [exact Hb|]. rewrite !nth_error_app_old; auto. apply nth_error_Some. congruence.
+Qed.
+
+(* ------------------------------------------------------------------ sbuf_buf *)
+Definition buf_tail : stmt := match fn_body cf_sbuf_buf with SSeq _ t => t | _ => SSkip end.
+
+Lemma buf_tail_ok call fuel m p cs sz :
+  sbuf_rep m p cs sz -> 0 < sz ->
+  let lc := [VPtr p 0] in
+  exists b m' rest, exec call fuel buf_tail (mkst lc m) = OReturn (VPtr b 0) (mkst lc m') /\
+    sbuf_rep m' p cs sz /\ sbuf_datab m p = Some b /\ sbuf_datab m' p = Some b /\
+    nth_error m' b = Some (map VInt cs ++ VInt 0 :: rest) /\ Z.of_nat (length cs + S (length rest)) = sz /\
+    sbuf_step m m' p /\ length m' = length m.
+Proof.
+  intros R Hpos lc. pose proof (rep_p_lt _ _ _ _ R) as Hpl.
+  destruct R as [[-> _]|[b [rest [Hb [Hp [Hd [Hl [Hr Hz]]]]]]]]; [lia|].
+  set (n := Z.of_nat (length cs)) in *.
+  destruct (ld3 _ _ _ _ _ Hp) as [L0 [L1 L2]].
+  assert (DM : sbuf_datab m p = Some b) by (eapply datab_of; exact Hp).
+  assert (Hbl : (b < length m)%nat) by (apply nth_error_Some; congruence).
+  unfold buf_tail, lc. cbn [fn_body cf_sbuf_buf]. xs. rewrite L0. xs. rewrite L1. xarith.
+  change (wrap I8 (wrap I8 0)) with 0.
+  rewrite (store_ok m b _ (0 + 1 * n) _ Hd) by (rewrite app_length, map_length; lia). xs.
+  replace (Z.to_nat (0 + 1 * n)) with (length (map VInt cs)) by (rewrite map_length; lia).
+  destruct rest as [|r0 rest]; [cbn [length] in Hr; lia|].
+  replace (upd (map VInt cs ++ r0 :: rest) (length (map VInt cs)) (VInt 0)) with (map VInt cs ++ VInt 0 :: rest).
+  2:{ unfold upd. rewrite firstn_app, Nat.sub_diag, firstn_all. cbn [firstn]. rewrite app_nil_r.
+      rewrite skipn_app, skipn_all2 by lia. replace (S (length (map VInt cs)) - length (map VInt cs))%nat with 1%nat by lia.
+      reflexivity. }
+  set (m1 := upd m b _).
+  assert (Hp1 : nth_error m1 p = Some [VPtr b 0; VInt n; VInt sz]) by (unfold m1; rewrite mem_upd_other by auto; exact Hp).
+  destruct (ld3 _ _ _ _ _ Hp1) as [L10 _]. rewrite L10. xs.
+  exists b, m1, rest. split; [reflexivity|].
+  assert (Hd1 : nth_error m1 b = Some (map VInt cs ++ VInt 0 :: rest)) by (apply mem_upd_same; exact Hbl).
+  assert (D1 : sbuf_datab m1 p = Some b) by (eapply datab_of; exact Hp1).
+  split; [|split; [exact DM|split; [exact D1|split; [exact Hd1|split; [exact Hl|split; [apply step_upd_data; assumption|apply mlen_upd; exact Hbl]]]]]].
+  right. exists b, (VInt 0 :: rest). split; [exact Hb|]. split; [exact Hp1|]. split; [exact Hd1|]. cbn [length] in *. auto.
+Qed.
+
+Definition buf_sz (sz : Z) : Z := if sz =? 0 then 1 else sz.
+Lemma buf_sz_model cs sz : IoDefs.sbuf_buf (sb_model cs sz) = sb_model cs (buf_sz sz).
+Proof. unfold IoDefs.sbuf_buf, sb_model, buf_sz. cbn [sb_sz sb_n sb_data]. destruct (sz =? 0); reflexivity. Qed.
+
+(* sbuf_buf: the string is terminated INSIDE the allocation (the store of the terminator is checked: outside the block
+   it would be Err EOob), the pointer returned is the start of the data block *)
+Theorem tr_sbuf_buf m p cs sz d fuel :
+  sbuf_rep m p cs sz ->
+  let sz' := sb_sz (IoDefs.sbuf_buf (sb_model cs sz)) in
+  exists b m' rest, callf cprog fuel (S (S d)) F_sbuf_buf [VPtr p 0] m = Ok (VPtr b 0, m') /\
+    sbuf_rep m' p cs sz' /\ sbuf_datab m' p = Some b /\
+    nth_error m' b = Some (map VInt cs ++ VInt 0 :: rest) /\ Z.of_nat (length cs + S (length rest)) = sz' /\
+    Z.of_nat (length cs) < sz' /\
+    sbuf_step m m' p /\ (sbuf_datab m p = Some b \/ (length m <= b)%nat).
+Proof.
+  intros R sz'. pose proof (rep_sz _ _ _ _ R) as Hsz. pose proof (rep_p_lt _ _ _ _ R) as Hpl.
+  unfold sz'. rewrite buf_sz_model. cbn [sb_sz sb_model]. unfold buf_sz. clear sz'.
+  rewrite callf_S. change (nth_error cprog F_sbuf_buf) with (Some cf_sbuf_buf). cbv iota beta.
+  change (fn_nparams cf_sbuf_buf) with 1%nat. change (fn_nlocals cf_sbuf_buf) with 1%nat.
+  change (fn_body cf_sbuf_buf) with (SSeq (SIf (ELNot (ELoad None (ELocal 0))) (SExpr (ECall F_sbuf_extend [ELocal 0; EConst 1])) SSkip) buf_tail).
+  cbn [length Nat.eqb Nat.sub repeat app].
+  rewrite exec_seq, exec_if.
+  destruct R as [[-> [-> Hp]]|[b [rest [Hb [Hp [Hd [Hl [Hr Hz]]]]]]]].
+  - destruct (ld3 _ _ _ _ _ Hp) as [L0 _]. xs. rewrite L0. xs.
+    destruct (tr_sbuf_extend m p [] 0 1 d fuel) as [m1 [E1 [R1 [S1 [D1 [Hl1 _]]]]]]; [left; auto|cbn [length]; lia|].
+    rewrite E1. xs.
+    destruct (buf_tail_ok (callf cprog fuel (S d)) fuel m1 p [] 1 R1 ltac:(lia)) as [b [m2 [rest [E2 [R2 [D1' [D2 [Hd2 [Hl2 [S2 _]]]]]]]]]].
+    rewrite E2. exists b, m2, rest. split; [reflexivity|]. change (0 =? 0) with true. cbv iota.
+    split; [exact R2|]. split; [exact D2|]. split; [exact Hd2|]. split; [exact Hl2|]. split; [cbn [length]; lia|].
+    split; [apply (sbuf_step_trans _ m1); assumption|]. right. rewrite D1 in D1'. injection D1' as <-. lia.
+  - destruct (ld3 _ _ _ _ _ Hp) as [L0 _]. xs. rewrite L0. xs.
+    assert (R : sbuf_rep m p cs sz) by (right; exists b, rest; auto 10).
+    destruct (buf_tail_ok (callf cprog fuel (S d)) fuel m p cs sz R ltac:(lia)) as [b' [m2 [rest' [E2 [R2 [D1' [D2 [Hd2 [Hl2 [S2 _]]]]]]]]]].
+    rewrite E2. exists b', m2, rest'. split; [reflexivity|].
+    destruct (Z.eqb_spec sz 0) as [E0|E0]; [lia|].
+    split; [exact R2|]. split; [exact D2|]. split; [exact Hd2|]. split; [exact Hl2|]. split; [lia|].
+    split; [exact S2|]. left. exact D1'.
+Qed.
+
+(* ------------------------------------------------------------------ sbuf_done: the terminated string survives, the struct is freed *)
+Theorem tr_sbuf_done m p cs sz d fuel :
+  sbuf_rep m p cs sz ->
+  exists b m' rest, callf cprog fuel (S (S (S d))) F_sbuf_done [VPtr p 0] m = Ok (VPtr b 0, m') /\
+    nth_error m' b = Some (map VInt cs ++ VInt 0 :: rest) /\ nth_error m' p = Some [] /\ b <> p /\
+    (sbuf_datab m p = Some b \/ (length m <= b)%nat) /\ (length m <= length m')%nat /\
+    forall b', (b' < length m)%nat -> b' <> p -> sbuf_datab m p <> Some b' -> nth_error m' b' = nth_error m b'.
+Proof.
+  intro R. pose proof (rep_p_lt _ _ _ _ R) as Hpl.
+  destruct (tr_sbuf_buf m p cs sz d fuel R) as [b [m1 [rest [E1 [R1 [D1 [Hd1 [_ [_ [S1 Hb]]]]]]]]]].
+  enter F_sbuf_done cf_sbuf_done. xs. rewrite E1. xs.
+  pose proof (rep_p_lt _ _ _ _ R1) as Hpl1.
+  assert (Hbp : b <> p).
+  { destruct R1 as [[_ [_ Hp]]|[b1 [rest1 [Hb1 [Hp _]]]]]; [rewrite (datab_null _ _ _ _ Hp) in D1; discriminate|].
+    rewrite (datab_of _ _ _ _ _ _ Hp) in D1. congruence. }
+  assert (Hp1 : exists blk, nth_error m1 p = Some blk /\ blk <> []).
+  { destruct R1 as [[_ [_ Hp]]|[b1 [rest1 [Hb1 [Hp _]]]]]; eexists; (split; [exact Hp|discriminate]). }
+  destruct Hp1 as [blk [Hp1 Hne]]. rewrite (free_ok m1 p blk Hp1 Hne). xs.
+  exists b, (upd m1 p []), rest. split; [reflexivity|].
+  split; [rewrite mem_upd_other by lia; exact Hd1|]. split; [apply mem_upd_same; exact Hpl1|]. split; [exact Hbp|].
+  split; [exact Hb|]. destruct S1 as [L1 [_ F1]]. split; [rewrite mlen_upd by exact Hpl1; exact L1|].
+  intros b' Hb' Hne' Hdb. rewrite mem_upd_other by lia. apply F1; assumption.
+Qed.
+
+(* ------------------------------------------------------------------ sbuf_free: both blocks are freed, nothing else changes *)
+Theorem tr_sbuf_free m p cs sz d fuel :
+  sbuf_rep m p cs sz ->
+  exists m', callf cprog fuel (S d) F_sbuf_free [VPtr p 0] m = Ok (VUndef, m') /\
+    nth_error m' p = Some [] /\ (forall bo, sbuf_datab m p = Some bo -> nth_error m' bo = Some []) /\
+    length m' = length m /\
+    forall b', b' <> p -> sbuf_datab m p <> Some b' -> nth_error m' b' = nth_error m b'.
+Proof.
+  intro R. pose proof (rep_p_lt _ _ _ _ R) as Hpl.
+  enter F_sbuf_free cf_sbuf_free. xs.
+  destruct R as [[-> [-> Hp]]|[b [rest [Hb [Hp [Hd [Hl [Hr Hz]]]]]]]]; destruct (ld3 _ _ _ _ _ Hp) as [L0 _]; rewrite L0; xs.
+  - rewrite free_null. xs. rewrite (free_ok m p _ Hp) by discriminate. xs.
+    eexists. split; [reflexivity|]. split; [apply mem_upd_same; exact Hpl|].
+    split; [intros bo Hbo; rewrite (datab_null _ _ _ _ Hp) in Hbo; discriminate|]. split; [apply mlen_upd; exact Hpl|].
+    intros b' Hne _. apply mem_upd_other; assumption.
+  - assert (Hbl : (b < length m)%nat) by (apply nth_error_Some; congruence).
+    rewrite (free_ok m b _ Hd) by (destruct rest; [cbn in Hr; lia|]; intro E; apply app_eq_nil in E; destruct E; discriminate).
+    xs. assert (Hp1 : nth_error (upd m b []) p = Some [VPtr b 0; VInt (Z.of_nat (length cs)); VInt sz]) by (rewrite mem_upd_other by lia; exact Hp).
+    rewrite (free_ok _ p _ Hp1) by discriminate. xs.
+    eexists. split; [reflexivity|]. split; [apply mem_upd_same; rewrite mlen_upd by lia; exact Hpl|].
+    split; [intros bo Hbo; rewrite (datab_of _ _ _ _ _ _ Hp) in Hbo; injection Hbo as <-; rewrite mem_upd_other by (rewrite ?mlen_upd by lia; lia); apply mem_upd_same; exact Hbl|].
+    split; [rewrite !mlen_upd by (rewrite ?mlen_upd by lia; lia); reflexivity|].
+    intros b' Hne Hdb. rewrite (datab_of _ _ _ _ _ _ Hp) in Hdb.
+    rewrite !mem_upd_other by (rewrite ?mlen_upd by lia; first [lia | congruence]). reflexivity.
+Qed.
